@@ -9,6 +9,7 @@ CONSTANTS
   Ks = {1, 2, 3}
   Fuel = 3
   Detail = FALSE
+  OldReadLimit = TRUE
   WakeAll = FALSE
 SPECIFICATION FairSpec
 INVARIANTS ReadFifo ReadLimitStrict
